@@ -79,7 +79,7 @@ func (w *World) credentialFor(o *Obs, pid string, c *c01Oracle) (string, bool) {
 	}
 	switch st.Kind {
 	case "oauth2_callback":
-		if st.str("code") == "fresh" && st.str("error") == "" {
+		if o.CodeUnused && st.str("error") == "" {
 			u := w.idpUser(st)
 			if row := o.RowsAfter[pid]; row != nil && row.OAuth2Provider == u.Provider && row.OAuth2UID == u.UID {
 				if p := o.presented("state"); p != nil && p.Value != "" && p.Value == o.SessBefore["oauth2_state"] {
